@@ -12,6 +12,35 @@ let rec int_of_pos (p : positive) : int =
   match p with XH -> 1 | XO q -> 2 * int_of_pos q | XI q -> 2 * int_of_pos q + 1
 let int_of_n (x : n) : int = match x with N0 -> 0 | Npos p -> int_of_pos p
 
+(* numbers beyond the native int range (integer cells of 19+ digits): decimal <-> N in chunks of 9 digits with the extracted N.add / N.mul / N.div_eucl *)
+let rec pos_bits (p : positive) : int = match p with XH -> 1 | XO q | XI q -> 1 + pos_bits q
+let chunk = n_of_int 1000000000
+let n_of_decimal (d : string) : n =
+  let len = String.length d in
+  if len <= 18 then n_of_int (int_of_string d)
+  else begin
+    let acc = ref N0 and i = ref 0 in
+    let first = len mod 9 in
+    if first > 0 then (acc := n_of_int (int_of_string (String.sub d 0 first)); i := first);
+    while !i < len do
+      acc := N.add (N.mul !acc chunk) (n_of_int (int_of_string (String.sub d !i 9)));
+      i := !i + 9
+    done;
+    !acc
+  end
+let decimal_of_n (x : n) : string =
+  match x with
+  | N0 -> "0"
+  | Npos p when pos_bits p <= 61 -> string_of_int (int_of_pos p)
+  | _ ->
+      let parts = ref [] and cur = ref x in
+      while (match !cur with N0 -> false | Npos p -> pos_bits p > 61) do
+        let (q, r) = N.div_eucl !cur chunk in
+        parts := Printf.sprintf "%09d" (int_of_n r) :: !parts;
+        cur := q
+      done;
+      String.concat "" (string_of_int (int_of_n !cur) :: !parts)
+
 let parse (s : string) (pos : int ref) : sx =
   let len = String.length s in
   let rec skip () = if !pos < len && s.[!pos] = ' ' then (incr pos; skip ()) in
@@ -32,13 +61,13 @@ let parse (s : string) (pos : int ref) : sx =
       let st = !pos in
       while !pos < len && s.[!pos] >= '0' && s.[!pos] <= '9' do incr pos done;
       if !pos = st then failwith "bad char";
-      A (n_of_int (int_of_string (String.sub s st (!pos - st))))
+      A (n_of_decimal (String.sub s st (!pos - st)))
     end in
   value ()
 
 let rec print (b : Buffer.t) (x : sx) : unit =
   match x with
-  | A v -> Buffer.add_string b (string_of_int (int_of_n v))
+  | A v -> Buffer.add_string b (decimal_of_n v)
   | L l ->
       Buffer.add_char b '(';
       List.iteri (fun i y -> if i > 0 then Buffer.add_char b ' '; print b y) l;
